@@ -19,8 +19,8 @@ RULE = ('seeded random pairs (P, P\'): P from the program generator (instance + 
         'P\' = P or P with 1-2 behavioural edits (changed output argument, dropped/added/swapped/duplicated output call, changed result, raise '
         'instead of return); P recorded (memory/file/S3 cassette), P\' replayed. A case = one pair; distinct = hash of (P description, '
         'edits, cassette); non-trivial = the live run made at least one output call or the edit changed something.')
-ASSUMPTIONS = ['exception arguments are not judged: the operation entry for a raised exception is accepted as an instance of the raised type or as the '
-               'documented fallback form {error_type, error_repr}', 'outputs nested inside an intercepted body are not captured by design',
+ASSUMPTIONS = ['exception arguments are not judged: the operation entry for a raised exception is accepted as an instance of the raised type, or as the '
+               'documented fallback form {error_type, error_repr} when the serializer (asked directly) refuses that very exception', 'outputs nested inside an intercepted body are not captured by design',
                'replays aborted by a missing input key (edit changed an input argument) are skipped, not judged']
 
 OPKEY = None
@@ -64,6 +64,19 @@ def check_map(ctx, got, exp, op, w, which):
             ctx.violation('%s operation entry differs from the value the operation returned' % which, dict(w, captured=repr(v)[:300], returned=repr(op[1])[:300]))
     else:
         ok = type(v) is type(op[1]) or (isinstance(v, dict) and v.get('error_type') is type(op[1]))
+        if ok and isinstance(v, dict):
+            # the fallback form is for exceptions the serializer refuses; asked of the serializer directly, for this very exception
+            try:
+                from jsonpickle import encode as _enc
+                _enc(op[1], unpicklable=True)
+                encodable = True
+            except Exception:
+                encodable = False
+            ctx.count('operation_entries_in_fallback_form')
+            if encodable:
+                ctx.violation('%s operation entry is the fallback form {error_type, error_repr} although the raised exception is encodable: its '
+                              'attributes are lost' % which, dict(w, raised=type(op[1]).__name__))
+                return
         if not ok:
             ctx.violation('%s operation entry is not the exception the operation raised' % which, dict(w, captured=repr(v)[:200], raised=type(op[1]).__name__))
 
